@@ -838,6 +838,12 @@ func vf26Check(t vfFataler, st *vfStats, s *vf26Sched) {
 	if vf26Classes(s, r, st) {
 		st.NonTrivial(vfHashHex([]byte(s.String())))
 	}
+	hsRes := make([]string, len(r.HSErr))
+	for i, e := range r.HSErr {
+		hsRes[i] = fmt.Sprint(e)
+	}
+	st.Sample(map[string]any{"schedule": s, "handshake_results": hsRes, "shared_outcome": fmt.Sprint(r.FinalErr),
+		"writer": fmt.Sprintf("%d bytes, %v", r.WriterN, r.WriterErr), "closer": fmt.Sprint(r.CloserErr)})
 	v, dlHit := vf26Judge(s, r, st)
 	if v != "" {
 		errs := make([]string, len(r.HSErr))
@@ -850,7 +856,6 @@ func vf26Check(t vfFataler, st *vfStats, s *vf26Sched) {
 	if dlHit {
 		st.Class("deadline-hit(undecided)")
 	}
-	st.Sample(map[string]any{"schedule": s, "final": fmt.Sprint(r.FinalErr)})
 }
 
 func TestVerifC26Concurrent(t *testing.T) {
